@@ -27,8 +27,16 @@ class LawfulByteMem (μ : Type) [ByteMem μ] : Prop where
   valid_store : ∀ (m : μ) (a a' : W64) (v : BitVec 8),
     ByteMem.valid (ByteMem.store m a v) a' = ByteMem.valid m a'
 
-inductive Ty | i8 | u8 | i16 | u16 | i32 | u32 | i64 | u64 | p
+inductive Ty
+  | i8 | u8 | i16 | u16 | i32 | u32 | i64 | u64 | p
+  /-- block argument of `n` bytes passed by value (`blk`…`blk4`; the case number only selects the
+  ABI class) resp. by reference (`rblk`); only as parameter type / type of a call argument -/
+  | blk (n : Nat) | rblk (n : Nat)
 deriving DecidableEq, Repr, Inhabited
+
+def Ty.isBlk : Ty → Bool
+  | .blk _ | .rblk _ => true
+  | _ => false
 
 def Ty.bytes : Ty → Nat
   | .i8 | .u8 => 1 | .i16 | .u16 => 2 | .i32 | .u32 => 4 | _ => 8
@@ -202,7 +210,8 @@ def evalOpd (rs : Regs ρ) (g : G μ) : Opd ρ → Except Err W64
   | .imm v => .ok v
   | .mem m =>
     let a := m.addr rs
-    if validN g.mem a m.ty.bytes then .ok (loadTy g.mem m.ty a) else .error (.oob a)
+    if m.ty.isBlk then .ok a   -- a block argument denotes the address of the block
+    else if validN g.mem a m.ty.bytes then .ok (loadTy g.mem m.ty a) else .error (.oob a)
 
 def evalOpds (rs : Regs ρ) (g : G μ) : List (Opd ρ) → Except Err (List W64)
   | [] => .ok []
@@ -329,15 +338,29 @@ def stepInsn (body : List (Insn ρ)) (i : Insn ρ) (fr : Frame ρ) (g : G μ) :
 
 def findFunc (P : Prog ρ) (f : String) : Option (Func ρ) := P.find? (·.name == f)
 
-/-- parameters receive the arguments truncated to the parameter types; every other register of the
-new activation starts from `init` (MIR leaves them unset; the driver rejects reads of unset
-registers, the inlining theorem instantiates `init` with what the inlined copy finds there) -/
-def enter (init : Regs ρ) : List (ρ × Ty) → List W64 → Except Err (Regs ρ)
-  | [], [] => .ok init
-  | (r, t) :: ps, v :: vs => do
-    let rs ← enter init ps vs
-    pure (rs.set r (t.trunc v))
-  | _, _ => .error (.stuck "argument count")
+/-- copy `n` bytes -/
+def copyN (m : μ) (src dst : W64) : Nat → μ
+  | 0 => m
+  | n + 1 => copyN (ByteMem.store m dst (ByteMem.load m src)) (src + 1) (dst + 1) n
+
+/-- parameters receive the arguments truncated to the parameter types; a `blk` parameter receives
+the address of a fresh copy of the caller's block (MIR.md: "Block data are passed by value"), an
+`rblk` parameter the caller's address.  Every other register of the new activation starts from
+`init` (MIR leaves them unset; the driver rejects reads of unset registers, the inlining theorem
+instantiates `init` with what the inlined copy finds there) -/
+def enter (init : Regs ρ) : List (ρ × Ty) → List W64 → G μ → Except Err (Regs ρ × G μ)
+  | [], [], g => .ok (init, g)
+  | (r, t) :: ps, v :: vs, g => do
+    let (rs, g) ← enter init ps vs g
+    match t with
+    | .blk n =>
+      let a := (g.sp + 15) &&& ~~~(15 : W64)
+      if validN g.mem v n && validN g.mem a n then
+        pure (rs.set r a, { g with mem := copyN g.mem v a n, sp := a + BitVec.ofNat 64 (max n 1) })
+      else .error (.oob v)
+    | .rblk _ => pure (rs.set r v, g)
+    | t => pure (rs.set r (t.trunc v), g)
+  | _, _, _ => .error (.stuck "argument count")
 
 def truncRes : List Ty → List W64 → Except Err (List W64)
   | [], [] => .ok []
@@ -366,8 +389,8 @@ def exec (P : Prog ρ) (c : Cfg ρ μ) (init : String → Regs ρ) :
         let (rv, g1) ←
           match findFunc P fn with
           | some callee => do
-            let rs0 ← enter (init fn) callee.params av
-            let (rv, g1) ← exec P c init n callee { regs := rs0, pc := 0 } g
+            let (rs0, g0) ← enter (init fn) callee.params av g
+            let (rv, g1) ← exec P c init n callee { regs := rs0, pc := 0 } g0
             pure (rv, { g1 with sp := g.sp })
           | none => c.ext fn av g
         let (rs, g2) ← setOpds fr.regs g1 res rv
